@@ -9,6 +9,25 @@ use crate::model::{root_path_count, user_edges, GraphSpec, Kind, TestFn};
 use crate::oracle::Violation;
 use crate::single::hash_of;
 
+/// CPU time consumed by the calling thread, in seconds (immune to the thread
+/// being descheduled on a loaded machine, unlike the wall clock).
+pub fn thread_cpu_s() -> f64 {
+    let mut ts = libc::timespec {
+        tv_sec: 0,
+        tv_nsec: 0,
+    };
+    // SAFETY: plain syscall writing into a local struct.
+    unsafe {
+        libc::clock_gettime(libc::CLOCK_THREAD_CPUTIME_ID, &mut ts);
+    }
+    ts.tv_sec as f64 + ts.tv_nsec as f64 * 1e-9
+}
+
+/// CPU budget for one `build()` of a family instance (n <= 130).  On the
+/// repaired tree the largest instance needs a few milliseconds; the budget is
+/// two to three orders of magnitude above that.
+pub const BUILD_CPU_BUDGET_S: f64 = 1.5;
+
 fn plain_fns(n: usize) -> Vec<TestFn> {
     (0..n)
         .map(|id| TestFn {
@@ -31,7 +50,7 @@ fn permutation(rng: &mut TestRng, n: usize) -> Vec<usize> {
 
 /// Edges given over "logical" positions 0..n (forward only); labels permuted,
 /// call order shuffled.
-fn instance(rng: &mut TestRng, n: usize, logical: Vec<(usize, usize)>) -> BuildCase {
+fn instance(rng: &mut TestRng, n: usize, logical: Vec<(usize, usize)>, access: bool) -> BuildCase {
     let label = permutation(rng, n);
     let mut edges: Vec<(usize, usize, Kind)> = logical
         .into_iter()
@@ -53,7 +72,19 @@ fn instance(rng: &mut TestRng, n: usize, logical: Vec<(usize, usize)>) -> BuildC
     }
     BuildCase {
         spec: GraphSpec {
-            fns: plain_fns(n),
+            fns: if access {
+                plain_fns(n)
+            } else {
+                // no data access at all: the augmenter adds nothing, so parts that the
+                // user left disconnected stay disconnected during the whole build
+                (0..n)
+                    .map(|id| TestFn {
+                        id,
+                        reads: vec![],
+                        writes: vec![],
+                    })
+                    .collect()
+            },
             edges,
         },
         fail_pos: 0,
@@ -109,6 +140,7 @@ pub struct FamilyResult {
     pub samples: Vec<Value>,
     pub max_n: usize,
     pub max_paths: u64,
+    pub max_build_cpu_s: f64,
 }
 
 pub fn families(thorough: bool, seed: u64) -> FamilyResult {
@@ -117,27 +149,59 @@ pub fn families(thorough: bool, seed: u64) -> FamilyResult {
     let mut rng = TestRng::from_seed(RngAlgorithm::ChaCha, &sb);
     let mut cases: Vec<(u64, BuildCase, String)> = vec![];
     let mut push = |rng: &mut TestRng, n: usize, logical: Vec<(usize, usize)>, what: String| {
-        for _ in 0..2 {
-            let c = instance(rng, n, logical.clone());
+        for k in 0..2 {
+            let c = instance(rng, n, logical.clone(), k == 0);
             let ue = user_edges(n, &c.spec.edges).edges;
             cases.push((root_path_count(n, &ue), c, what.clone()));
         }
     };
+    // Sizes are the same in both tiers: on a polynomial tree every instance builds
+    // in milliseconds, and on an exponential one the walk (sorted by explosiveness)
+    // stops at the first instance over a bound.
     let complete_sizes: Vec<usize> = if thorough {
-        vec![3, 4, 6, 8, 10, 12, 14, 16, 18, 20, 22, 24, 28, 32, 40, 48, 64]
+        vec![3, 4, 6, 8, 10, 12, 14, 16, 18, 20, 22, 24, 28, 32, 40, 48, 64, 96]
     } else {
-        vec![3, 4, 6, 8, 10, 12, 14, 16, 18, 20, 24]
+        vec![3, 4, 6, 8, 10, 12, 14, 16, 18, 20, 24, 32, 48, 64]
     };
     for &n in &complete_sizes {
         push(&mut rng, n, complete_dag(n), format!("complete DAG n={n}"));
     }
-    let max_total = if thorough { 64 } else { 24 };
+    let max_total = if thorough { 96 } else { 64 };
     for w in 2..=4usize {
         let mut l = 2;
         while w * l <= max_total {
             push(&mut rng, w * l, layered(w, l), format!("layered complete width={w} layers={l}"));
             l += if l < 8 { 1 } else { 2 };
         }
+    }
+    // layered-complete part plus a disjoint chain whose functions have equal or
+    // higher rank (the augmenter asks for paths between the two parts)
+    for w in 2..=4usize {
+        let mut l = 3;
+        while w * l + l + 2 <= 128 {
+            let mut e = layered(w, l);
+            let base = w * l;
+            let chain = l + 2;
+            for i in 0..chain - 1 {
+                e.push((base + i, base + i + 1));
+            }
+            push(&mut rng, base + chain, e, format!("layered width={w} layers={l} + disjoint chain of {chain}"));
+            l += if l < 8 { 1 } else { 3 };
+        }
+    }
+    // chains of diamonds (2^k equal-length paths)
+    let mut k = 2;
+    while 3 * k + 1 <= 130 {
+        let mut e = vec![];
+        for d in 0..k {
+            let a = 3 * d;
+            e.push((a, a + 1));
+            e.push((a, a + 2));
+            e.push((a + 1, a + 3));
+            e.push((a + 2, a + 3));
+        }
+        push(&mut rng, 3 * k + 1, e, format!("chain of {k} diamonds"));
+        k += if k < 10 { 2 } else { 6 };
     }
     // dense random DAGs
     let n_dense = if thorough { 60 } else { 20 };
@@ -148,7 +212,7 @@ pub fn families(thorough: bool, seed: u64) -> FamilyResult {
             .into_iter()
             .filter(|_| rng.next_u64() % 100 < pct)
             .collect();
-        let c = instance(&mut rng, n, logical);
+        let c = instance(&mut rng, n, logical, k % 2 == 0);
         let ue = user_edges(n, &c.spec.edges).edges;
         cases.push((root_path_count(n, &ue), c, format!("dense random #{k} n={n} p={pct}%")));
     }
@@ -160,9 +224,11 @@ pub fn families(thorough: bool, seed: u64) -> FamilyResult {
         samples: vec![],
         max_n: 0,
         max_paths: 0,
+        max_build_cpu_s: 0.0,
     };
     for (paths, case, what) in cases {
         let n = case.spec.n();
+        let cpu0 = thread_cpu_s();
         let b = match build_recorded(&case.spec) {
             Ok(b) => b,
             Err(m) => {
@@ -177,6 +243,8 @@ pub fn families(thorough: bool, seed: u64) -> FamilyResult {
                 return res;
             }
         };
+        let cpu = thread_cpu_s() - cpu0;
+        res.max_build_cpu_s = res.max_build_cpu_s.max(cpu);
         res.instances += 1;
         res.max_n = res.max_n.max(n);
         res.max_paths = res.max_paths.max(paths);
@@ -194,6 +262,19 @@ pub fn families(thorough: bool, seed: u64) -> FamilyResult {
         let mut viol = check_c18(&b, &f);
         // the ranks must also still be right (a "fast but wrong" computation is C13's)
         let _ = check_c13(&b, &f);
+        if viol.is_empty() && cpu > BUILD_CPU_BUDGET_S {
+            // hook-free complement: work that no counter sees (e.g. an exponential
+            // reachability search in the augmenter) still shows as CPU time.  The
+            // instances are sorted by explosiveness, so the first one over budget
+            // stops the walk before an instance that would take hours.
+            viol.push(Violation {
+                prop: "C18".into(),
+                kind: "build-cpu-time-exceeds-budget".into(),
+                msg: format!(
+                    "build() of {n} functions used {cpu:.2} s of CPU (budget {BUILD_CPU_BUDGET_S} s; the largest instance on a polynomial tree needs milliseconds)"
+                ),
+            });
+        }
         if let Some(v) = viol.pop() {
             let mut v = v;
             v.msg = format!("{what}: {}", v.msg);
